@@ -89,9 +89,7 @@ func CheckC05(r *Report) {
 		if w.Env[0] < 0 {
 			negEnv.Add(idx, 1)
 		}
-	}, func(a spec.Assignment, why string) {
-		r.Violation(Case{Kind: "v2-score", Key: "v2.0/score/cannot-build", Expected: "object built by Set reads back", Observed: why, Args: map[string]any{"vector": spec.V2.Full(a)}}, nil)
-	}, r.TooMany)
+	}, iterBad(r, I20, dims2, v2zero(), "v2-score"), r.TooMany)
 	n := int64(139968000)
 	r.States.Store(n)
 	r.Transitions.Store(n * 5)
